@@ -517,6 +517,391 @@ theorem ctr_add_spec (c : Ctrs) (w n : Nat) (hc : CW c w) (hw0 : 0 < w) :
         | none => rw [h] at this; exact this
         | some c' => rw [h] at this; exact this.1
 
+/-! ## the counters stay sorted, and fresh (all inside the window) -/
+
+/-- live counters strictly increasing (index form) -/
+def CSorted (c : Ctrs) : Prop :=
+  ∀ j1 j2 x1 x2, j1 < j2 → j2 < c.nr → c.arr[j1]? = some x1 → c.arr[j2]? = some x2 → x1.seqNr < x2.seqNr
+
+/-- every live counter is inside the window below the newest one -/
+def Fresh (c : Ctrs) (w : Nat) : Prop := ∀ x ∈ c.live, mxOf c < x.seqNr + w
+
+theorem csorted_le_mx (c : Ctrs) (hs : CSorted c) (hle : c.nr ≤ c.arr.length) : ∀ x ∈ c.live, x.seqNr ≤ mxOf c := by
+  intro x hx
+  rw [live_mem] at hx
+  obtain ⟨j, hj, hx⟩ := hx
+  have hlast : ∃ y, c.arr[c.nr - 1]? = some y := ⟨c.arr[c.nr - 1]'(by omega), List.getElem?_eq_getElem (by omega)⟩
+  obtain ⟨y, hy⟩ := hlast
+  rw [mxOf_eq, hy]
+  by_cases h : j = c.nr - 1
+  · subst h; rw [hy] at hx; injection hx with hx; subst hx; exact Nat.le_refl _
+  · exact Nat.le_of_lt (hs j (c.nr - 1) x y (by omega) (by omega) hx hy)
+
+theorem filter_take_le {α} (l : List α) (P : α → Bool) (m : Nat) : ((l.take m).filter P).length ≤ (l.filter P).length := by
+  conv => rhs; rw [← List.take_append_drop m l]
+  rw [List.filter_append, List.length_append]; omega
+
+/-- in a sorted array the counters below a threshold form a prefix: one at index `m` means at least `m+1` of them -/
+theorem count_prefix (c : Ctrs) (hs : CSorted c) (m t : Nat) (x : Ctr) (hm : m < c.nr) (hx : c.arr[m]? = some x)
+    (hxt : x.seqNr < t) : m + 1 ≤ countBelow c.live t := by
+  unfold countBelow Ctrs.live
+  have h1 := filter_take_le (c.arr.take c.nr) (fun y => decide (y.seqNr < t)) (m + 1)
+  have h2 : ((c.arr.take c.nr).take (m + 1)).filter (fun y => decide (y.seqNr < t)) = (c.arr.take c.nr).take (m + 1) := by
+    rw [List.filter_eq_self]
+    intro y hy
+    rw [List.take_take, mem_take_iff] at hy
+    obtain ⟨j, hj, hy⟩ := hy
+    have hj' : j < m + 1 := by omega
+    by_cases hjm : j = m
+    · subst hjm; rw [hx] at hy; injection hy with hy; subst hy; simpa using hxt
+    · have := hs j m y x (by omega) hm hy hx; simp; omega
+  rw [h2] at h1
+  have h3 : ((c.arr.take c.nr).take (m + 1)).length = m + 1 := by
+    have : m < c.arr.length := by
+      rcases Nat.lt_or_ge m c.arr.length with h | h
+      · exact h
+      · rw [List.getElem?_eq_none h] at hx; cases hx
+    simp only [List.length_take]; omega
+  omega
+
+theorem findIdx_none (l : List Ctr) (n : Nat) (h : findIdx l n = none) : ∀ x ∈ l, x.seqNr ≠ n := by
+  induction l with
+  | nil => simp
+  | cons c t ih =>
+    unfold findIdx at h
+    by_cases hc : c.seqNr = n
+    · simp [hc] at h
+    · simp only [hc, ↓reduceIte, Option.map_eq_none_iff] at h
+      intro x hx
+      rcases List.mem_cons.mp hx with rfl | hx'
+      · exact hc
+      · exact ih h x hx'
+
+theorem insPos_max (l : List Ctr) (n k i : Nat) (h : insPos l n k = some i) :
+    (l.getD (i - 1) default).seqNr < n ∧
+    ∀ i', i < i' → i' ≤ k → i' < l.length → n ≤ (l.getD (i' - 1) default).seqNr := by
+  induction k with
+  | zero => simp [insPos] at h
+  | succ k ih =>
+    unfold insPos at h
+    by_cases hc : k + 1 < l.length ∧ (l.getD k default).seqNr < n
+    · rw [if_pos hc] at h; injection h with h; subst h
+      exact ⟨by simpa using hc.2, fun i' h1 h2 _ => by omega⟩
+    · rw [if_neg hc] at h
+      obtain ⟨h1, h2⟩ := ih h
+      refine ⟨h1, ?_⟩
+      intro i' hi1 hi2 hi3
+      by_cases he : i' = k + 1
+      · subst he
+        simp only [Nat.add_sub_cancel]
+        have : ¬ (l.getD k default).seqNr < n := fun hh => hc ⟨hi3, hh⟩
+        omega
+      · exact h2 i' hi1 (by omega) hi3
+
+theorem live_getD (c : Ctrs) (j : Nat) (hj : j < c.nr) : c.live.getD j default = c.arr.getD j default := by
+  simp only [List.getD_eq_getElem?_getD, Ctrs.live, List.getElem?_take, hj, if_true]
+
+/-- explicit result of the `seqNr > max` branch -/
+theorem addAbove_shape (c : Ctrs) (w n : Nat) (hc : CW c w) (h0 : c.nr ≠ 0) :
+    ∃ (drop : Nat) (arr1 : List Ctr), c.addAbove n = some { c with arr := arr1.set (c.nr - drop) ⟨n, 1⟩, nr := c.nr - drop + 1 } ∧
+      drop ≤ c.nr ∧ countBelow c.live (c.minFromMax n) ≤ drop ∧ c.nr - drop < arr1.length ∧
+      ∀ j, j < c.nr - drop → arr1[j]? = c.arr[drop + j]? := by
+  obtain ⟨hweq, hlen, hnr⟩ := hc
+  unfold Ctrs.addAbove
+  simp only []
+  generalize hcb : countBelow c.live (c.minFromMax n) = cb
+  have hcble : cb ≤ c.nr := by
+    rw [← hcb]; unfold countBelow
+    have := List.length_filter_le (fun x : Ctr => decide (x.seqNr < c.minFromMax n)) c.live
+    have h2 : c.live.length ≤ c.nr := by simp [Ctrs.live]; omega
+    omega
+  generalize hdr : (if cb = 0 ∧ c.nr = c.w then 1 else cb) = drop
+  have hdle : drop ≤ c.nr := by
+    rw [← hdr]; split <;> omega
+  have hcbd : cb ≤ drop := by
+    rw [← hdr]; split <;> omega
+  have hd0 : drop = 0 → c.nr < w := by
+    intro hz; rw [hz] at hdr
+    split at hdr
+    · omega
+    · rename_i hh; omega
+  rw [if_neg (by omega)]
+  generalize harr : (if drop > 0 then copyWithin c.arr 0 drop c.arr.length else c.arr) = arr1
+  have hl1 : arr1.length = w := by
+    rw [← harr]; split
+    · rw [copyWithin_length _ _ _ _ (by omega)]; exact hlen
+    · exact hlen
+  have hidx : ∀ j, j < c.nr - drop → arr1[j]? = c.arr[drop + j]? := by
+    intro j hj
+    rw [← harr]; split
+    · rw [copyWithin_getElem? _ _ _ _ _ (by omega), if_pos (by omega)]; simp
+    · have : drop = 0 := by omega
+      simp [this]
+  have hnr1 : c.nr - drop < arr1.length := by
+    rw [hl1]; by_cases hz : drop = 0
+    · have := hd0 hz; omega
+    · omega
+  rw [if_pos hnr1]
+  exact ⟨drop, arr1, rfl, hdle, hcbd, hnr1, hidx⟩
+
+theorem ctr_addAbove_sorted (c : Ctrs) (w n : Nat) (hc : CW c w) (hw0 : 0 < w) (h0 : c.nr ≠ 0) (hn : mxOf c < n)
+    (hs : CSorted c) : ∀ c', c.addAbove n = some c' → CSorted c' ∧ Fresh c' w := by
+  intro c' hc'
+  obtain ⟨drop, arr1, hsh, hdle, hcbd, hnr1, hidx⟩ := addAbove_shape c w n hc h0
+  rw [hsh] at hc'; injection hc' with hc'; subst hc'
+  have hmax := csorted_le_mx c hs (by rw [hc.len]; exact hc.nr)
+  constructor
+  · intro j1 j2 x1 x2 h12 h2 e1 e2
+    simp only [List.getElem?_set] at e1 e2
+    have h2' : j2 < c.nr - drop + 1 := h2
+    rw [if_neg (by omega)] at e1
+    rw [hidx j1 (by omega)] at e1
+    by_cases hj2 : c.nr - drop = j2
+    · rw [if_pos hj2, if_pos hnr1] at e2
+      injection e2 with e2; subst e2
+      have := hmax x1 (by rw [live_mem]; exact ⟨drop + j1, by omega, e1⟩)
+      show x1.seqNr < n; omega
+    · rw [if_neg hj2, hidx j2 (by omega)] at e2
+      exact hs (drop + j1) (drop + j2) x1 x2 (by omega) (by omega) e1 e2
+  · intro x hx
+    have hmxn : mxOf { c with arr := arr1.set (c.nr - drop) ⟨n, 1⟩, nr := c.nr - drop + 1 } = n := by
+      rw [mxOf_eq]; simp [List.getElem?_set, hnr1]
+    rw [hmxn]
+    rw [live_mem] at hx
+    obtain ⟨j, hj, hx⟩ := hx
+    simp only [List.getElem?_set] at hx
+    have hj' : j < c.nr - drop + 1 := hj
+    by_cases hjn : c.nr - drop = j
+    · rw [if_pos hjn, if_pos hnr1] at hx
+      injection hx with hx; subst hx; show n < n + w; omega
+    · rw [if_neg hjn, hidx j (by omega)] at hx
+      -- not below the new minimum: otherwise more than `drop` counters would be below it
+      by_cases hlt : n < x.seqNr + w
+      · exact hlt
+      · exfalso
+        have hb : x.seqNr < c.minFromMax n := by
+          unfold Ctrs.minFromMax; rw [hc.weq]; split <;> omega
+        have := count_prefix c hs (drop + j) _ x (by omega) hx hb
+        omega
+
+theorem ctr_addInside_sorted (c : Ctrs) (w n : Nat) (hc : CW c w) (hw0 : 0 < w) (h0 : c.nr ≠ 0) (hn : n ≤ mxOf c)
+    (hmn : ¬ n < c.minFromMax (mxOf c)) (hs : CSorted c) :
+    ∀ c', c.addInside n = some c' → CSorted c' ∧ (Fresh c w → Fresh c' w) := by
+  intro c' hc'
+  have hspec := ctr_addInside_spec c w n hc h0 hn
+  rw [hc'] at hspec
+  obtain ⟨_, hmx⟩ := hspec
+  obtain ⟨hweq, hlen, hnr⟩ := hc
+  have hll : c.live.length = c.nr := by simp only [Ctrs.live, List.length_take]; omega
+  have hnew : mxOf c < n + w := by
+    unfold Ctrs.minFromMax at hmn; rw [hweq] at hmn; split at hmn <;> omega
+  unfold Ctrs.addInside at hc'
+  cases hfi : findIdx c.live n with
+  | some i =>
+    rw [hfi] at hc'
+    simp only [Option.some.injEq] at hc'
+    obtain ⟨y, hy, hyn⟩ := findIdx_some _ _ _ hfi
+    have hi : i < c.nr ∧ c.arr[i]? = some y := by
+      unfold Ctrs.live at hy
+      rw [List.getElem?_take] at hy
+      by_cases h : i < c.nr
+      · rw [if_pos h] at hy; exact ⟨h, hy⟩
+      · rw [if_neg h] at hy; cases hy
+    have hsame : ∀ (j : Nat) (z : Ctr), c'.arr[j]? = some z → ∃ z0 : Ctr, c.arr[j]? = some z0 ∧ z0.seqNr = z.seqNr := by
+      intro j z hz
+      rw [← hc'] at hz
+      simp only [List.getElem?_set] at hz
+      by_cases hij : i = j
+      · rw [if_pos hij, if_pos (by omega)] at hz
+        injection hz with hz; subst hz; subst hij
+        exact ⟨y, hi.2, hyn⟩
+      · rw [if_neg hij] at hz; exact ⟨z, hz, rfl⟩
+    have hnr' : c'.nr = c.nr := by rw [← hc']
+    constructor
+    · intro j1 j2 x1 x2 h12 h2 e1 e2
+      obtain ⟨z1, hz1, hs1⟩ := hsame j1 x1 e1
+      obtain ⟨z2, hz2, hs2⟩ := hsame j2 x2 e2
+      have := hs j1 j2 z1 z2 h12 (by omega) hz1 hz2
+      omega
+    · intro hf x hx
+      rw [live_mem] at hx
+      obtain ⟨j, hj, hx⟩ := hx
+      obtain ⟨z0, hz0, hs0⟩ := hsame j x hx
+      have := hf z0 (by rw [live_mem]; exact ⟨j, by omega, hz0⟩)
+      rw [hmx]; omega
+  | none =>
+    rw [hfi] at hc'
+    simp only [] at hc'
+    have hne := findIdx_none _ _ hfi
+    cases hp : insPos c.live n (c.nr - 1) with
+    | none =>
+      rw [hp] at hc'; simp only [Option.some.injEq] at hc'; subst hc'
+      exact ⟨hs, fun hf => hf⟩
+    | some i =>
+      rw [hp] at hc'
+      simp only [] at hc'
+      obtain ⟨hi1, hi2, hi3⟩ := insPos_some _ _ _ _ hp
+      obtain ⟨hlo, hhi⟩ := insPos_max _ _ _ _ hp
+      rw [hll] at hi3
+      -- the neighbours of the insertion point
+      have hbelow : ∀ (j : Nat) (z : Ctr), j ≤ i - 1 → c.arr[j]? = some z → z.seqNr < n := by
+        intro j z hj hz
+        have hy : c.arr[i - 1]? = some (c.arr[i - 1]'(by omega)) := List.getElem?_eq_getElem (by omega)
+        have hyn : (c.arr[i - 1]'(by omega)).seqNr < n := by
+          rw [live_getD c (i - 1) (by omega)] at hlo
+          simpa [List.getD_eq_getElem?_getD, hy] using hlo
+        by_cases hji : j = i - 1
+        · subst hji; rw [hy] at hz; injection hz with hz; subst hz; exact hyn
+        · have := hs j (i - 1) z _ (by omega) (by omega) hz hy; omega
+      have habove : ∀ (j : Nat) (z : Ctr), i ≤ j → j < c.nr → c.arr[j]? = some z → n < z.seqNr := by
+        intro j z hj hjn hz
+        have hy : c.arr[i]? = some (c.arr[i]'(by omega)) := List.getElem?_eq_getElem (by omega)
+        have hge : n ≤ (c.arr[i]'(by omega)).seqNr := by
+          by_cases hlast : i = c.nr - 1
+          · have : mxOf c = (c.arr[i]'(by omega)).seqNr := by
+              rw [mxOf_eq, ← hlast, hy]; rfl
+            omega
+          · have := hhi (i + 1) (by omega) (by omega) (by omega)
+            rw [Nat.add_sub_cancel, live_getD c i (by omega)] at this
+            simpa [List.getD_eq_getElem?_getD, hy] using this
+        have hneq := hne (c.arr[i]'(by omega)) (by rw [live_mem]; exact ⟨i, by omega, hy⟩)
+        by_cases hji : j = i
+        · subst hji; rw [hy] at hz; injection hz with hz; subst hz; omega
+        · have := hs i j _ z (by omega) hjn hy hz; omega
+      by_cases hw : c.nr < c.w
+      · rw [if_pos hw, if_pos (by omega)] at hc'
+        simp only [Option.some.injEq] at hc'
+        have hnr' : c'.nr = c.nr + 1 := by rw [← hc']
+        have hmap : ∀ (j : Nat) (z : Ctr), j ≤ c.nr → c'.arr[j]? = some z →
+            (j < i ∧ c.arr[j]? = some z) ∨ (j = i ∧ z.seqNr = n) ∨ (i < j ∧ c.arr[j - 1]? = some z) := by
+          intro j z hj hz
+          rw [← hc'] at hz
+          simp only [List.getElem?_set] at hz
+          by_cases hij : i = j
+          · rw [if_pos hij, if_pos (by rw [copyWithin_length _ _ _ _ (by omega)]; omega)] at hz
+            injection hz with hz; subst hz; right; left; exact ⟨hij.symm, rfl⟩
+          · rw [if_neg hij, copyWithin_getElem? _ _ _ _ _ (by omega)] at hz
+            by_cases h : i + 1 ≤ j
+            · rw [if_pos (by omega)] at hz
+              right; right; refine ⟨by omega, ?_⟩
+              have : i + (j - (i + 1)) = j - 1 := by omega
+              rw [this] at hz; exact hz
+            · rw [if_neg (by omega)] at hz
+              left; exact ⟨by omega, hz⟩
+        constructor
+        · intro j1 j2 x1 x2 h12 h2 e1 e2
+          rw [hnr'] at h2
+          rcases hmap j1 x1 (by omega) e1 with ⟨a1, b1⟩ | ⟨a1, b1⟩ | ⟨a1, b1⟩ <;>
+          rcases hmap j2 x2 (by omega) e2 with ⟨a2, b2⟩ | ⟨a2, b2⟩ | ⟨a2, b2⟩
+          · exact hs j1 j2 x1 x2 h12 (by omega) b1 b2
+          · rw [b2]; exact hbelow j1 x1 (by omega) b1
+          · exact hs j1 (j2 - 1) x1 x2 (by omega) (by omega) b1 b2
+          · omega
+          · omega
+          · rw [b1]; exact habove (j2 - 1) x2 (by omega) (by omega) b2
+          · omega
+          · omega
+          · exact hs (j1 - 1) (j2 - 1) x1 x2 (by omega) (by omega) b1 b2
+        · intro hf x hx
+          rw [live_mem] at hx
+          obtain ⟨j, hj, hx⟩ := hx
+          rw [hnr'] at hj
+          rw [hmx]
+          rcases hmap j x (by omega) hx with ⟨a, b⟩ | ⟨a, b⟩ | ⟨a, b⟩
+          · exact hf x (by rw [live_mem]; exact ⟨j, by omega, b⟩)
+          · rw [b]; exact hnew
+          · exact hf x (by rw [live_mem]; exact ⟨j - 1, by omega, b⟩)
+      · rw [if_neg hw, if_pos (by omega)] at hc'
+        simp only [Option.some.injEq] at hc'
+        have hnr' : c'.nr = c.nr := by rw [← hc']
+        have hmap : ∀ (j : Nat) (z : Ctr), j < c.nr → c'.arr[j]? = some z →
+            (j < i - 1 ∧ c.arr[j + 1]? = some z) ∨ (j = i - 1 ∧ z.seqNr = n) ∨ (i ≤ j ∧ c.arr[j]? = some z) := by
+          intro j z hj hz
+          rw [← hc'] at hz
+          simp only [List.getElem?_set] at hz
+          by_cases hij : i - 1 = j
+          · rw [if_pos hij, if_pos (by rw [copyWithin_length _ _ _ _ (by omega)]; omega)] at hz
+            injection hz with hz; subst hz; right; left; exact ⟨hij.symm, rfl⟩
+          · rw [if_neg hij, copyWithin_getElem? _ _ _ _ _ (by omega)] at hz
+            by_cases h : j < i - 1
+            · rw [if_pos (by omega)] at hz
+              left; refine ⟨h, ?_⟩
+              have : 1 + (j - 0) = j + 1 := by omega
+              rw [this] at hz; exact hz
+            · rw [if_neg (by omega)] at hz
+              right; right; exact ⟨by omega, hz⟩
+        constructor
+        · intro j1 j2 x1 x2 h12 h2 e1 e2
+          rw [hnr'] at h2
+          rcases hmap j1 x1 (by omega) e1 with ⟨a1, b1⟩ | ⟨a1, b1⟩ | ⟨a1, b1⟩ <;>
+          rcases hmap j2 x2 (by omega) e2 with ⟨a2, b2⟩ | ⟨a2, b2⟩ | ⟨a2, b2⟩
+          · exact hs (j1 + 1) (j2 + 1) x1 x2 (by omega) (by omega) b1 b2
+          · rw [b2]; exact hbelow (j1 + 1) x1 (by omega) b1
+          · exact hs (j1 + 1) j2 x1 x2 (by omega) (by omega) b1 b2
+          · omega
+          · omega
+          · rw [b1]; exact habove j2 x2 (by omega) (by omega) b2
+          · omega
+          · omega
+          · exact hs j1 j2 x1 x2 h12 (by omega) b1 b2
+        · intro hf x hx
+          rw [live_mem] at hx
+          obtain ⟨j, hj, hx⟩ := hx
+          rw [hnr'] at hj
+          rw [hmx]
+          rcases hmap j x hj hx with ⟨a, b⟩ | ⟨a, b⟩ | ⟨a, b⟩
+          · exact hf x (by rw [live_mem]; exact ⟨j + 1, by omega, b⟩)
+          · rw [b]; exact hnew
+          · exact hf x (by rw [live_mem]; exact ⟨j, by omega, b⟩)
+
+/-- **The counters stay strictly increasing**; they stay inside the window if they were, and an add above the newest
+number brings them all back inside it. -/
+theorem ctr_add_sorted (c : Ctrs) (w n : Nat) (hc : CW c w) (hw0 : 0 < w) (hs : CSorted c) :
+    ∀ c', c.add n = some c' → CSorted c' ∧ ((Fresh c w ∨ c.nr = 0 ∨ mxOf c < n) → Fresh c' w) := by
+  intro c' hc'
+  have hcw := hc
+  obtain ⟨hweq, hlen, hnr⟩ := hc
+  unfold Ctrs.add at hc'
+  by_cases h0 : c.nr = 0
+  · rw [if_pos h0, if_pos (by omega)] at hc'
+    simp only [Option.some.injEq] at hc'
+    have hp : 0 < c.arr.length := by omega
+    constructor
+    · intro j1 j2 x1 x2 h12 h2 _ _
+      rw [← hc'] at h2; simp at h2; omega
+    · intro _ x hx
+      rw [live_mem] at hx
+      obtain ⟨j, hj, hx⟩ := hx
+      rw [← hc'] at hj hx
+      have : j = 0 := by simp at hj; omega
+      subst this
+      simp only [List.getElem?_set, hp, if_true] at hx
+      injection hx with hx; subst hx
+      have : mxOf c' = n := by rw [← hc', mxOf_eq]; simp [List.getElem?_set, hp]
+      rw [this]; show n < n + w; omega
+  · rw [if_neg h0, if_neg (by omega)] at hc'
+    simp only [] at hc'
+    by_cases h1 : n < c.minFromMax (c.arr.getD (c.nr - 1) default).seqNr
+    · rw [if_pos h1] at hc'
+      simp only [Option.some.injEq] at hc'; subst hc'
+      refine ⟨hs, ?_⟩
+      rintro (hf | hz | hlt)
+      · exact hf
+      · exact absurd hz h0
+      · exfalso; unfold Ctrs.minFromMax at h1; unfold mxOf at hlt; split at h1 <;> omega
+    · rw [if_neg h1] at hc'
+      by_cases h2 : n > (c.arr.getD (c.nr - 1) default).seqNr
+      · rw [if_pos h2] at hc'
+        have := ctr_addAbove_sorted c w n hcw hw0 h0 h2 hs c' hc'
+        exact ⟨this.1, fun _ => this.2⟩
+      · rw [if_neg h2] at hc'
+        have := ctr_addInside_sorted c w n hcw hw0 h0 (by unfold mxOf; omega) h1 hs c' hc'
+        refine ⟨this.1, ?_⟩
+        rintro (hf | hz | hlt)
+        · exact this.2 hf
+        · exact absurd hz h0
+        · exfalso; unfold mxOf at hlt; omega
+
 /-! ## the generator -/
 
 def holdsB (b : Buf) (k : Nat) : Bool := b.live.any (·.seqNr = k)
@@ -925,5 +1310,285 @@ theorem filter_length_all {α} (l : List α) (P : α → Bool) (h : l.length ≤
       · exact ha
       · exact ih (by omega) x hx'
     · rw [if_neg ha] at h; omega
+
+/-- no buffer holds a number above the newest counted one -/
+def TopB (g : Gen) : Prop := ∀ p ∈ g.bufs, ∀ z ∈ p.2.live, g.ctrs.nr ≠ 0 ∧ z.seqNr ≤ mxOf g.ctrs
+
+/-- `GInv`, sorted counters, buffers below the newest counted number -/
+structure GSorted (g : Gen) : Prop where
+  inv : GInv g
+  sorted : CSorted g.ctrs
+  top : TopB g
+
+/-- the full bookkeeping invariant: additionally all live counters are inside the window -/
+structure GFresh (g : Gen) : Prop where
+  base : GSorted g
+  fresh : Fresh g.ctrs g.w
+
+theorem gen_add_sorted (g : Gen) (name : String) (it : Item) (hg : GSorted g) (hn : it.seqNr < U32) :
+    match g.add name it with
+    | .panic => False
+    | .err g' => GSorted g' ∧ (Fresh g.ctrs g.w → Fresh g'.ctrs g'.w)
+    | .ok g' _ => GSorted g' ∧ (Fresh g.ctrs g.w → Fresh g'.ctrs g'.w) := by
+  have hinv := gen_add_inv g name it hg.inv hn
+  obtain ⟨hbw0, huniq, _⟩ := b0_facts g name hg.inv
+  have hspec := buf_add_spec _ g.w it hbw0 hg.inv.wpos hg.inv.wlt hn
+  unfold Gen.add at hinv ⊢
+  by_cases hs : (g.shifted && !it.shifted) = true
+  · rw [if_pos hs]; exact ⟨hg, fun h => h⟩
+  · rw [if_neg hs] at hinv ⊢
+    simp only [] at hinv ⊢
+    cases hadd : ((lookupBuf g.bufs name).getD (Buf.new g.w)).add it with
+    | panic => rw [hadd] at hinv; exact hinv
+    | notIncreasing =>
+      rw [hadd] at hinv
+      refine ⟨⟨hinv, hg.sorted, ?_⟩, fun h => h⟩
+      intro p hp z hz
+      rcases mem_setBuf_cases _ _ _ _ hp with rfl | h
+      · cases hl : lookupBuf g.bufs name with
+        | none => rw [hl] at hz; simp [Buf.new, Buf.live] at hz
+        | some b => rw [hl] at hz; exact hg.top _ (lookupBuf_some_mem _ _ _ hl) z hz
+      · exact hg.top p h z hz
+    | ok b1 =>
+      rw [hadd] at hinv hspec
+      simp only [] at hinv ⊢
+      have hcs := ctr_add_spec g.ctrs g.w it.seqNr hg.inv.cw hg.inv.wpos
+      cases hca : g.ctrs.add it.seqNr with
+      | none => rw [hca] at hinv; exact hinv
+      | some c1 =>
+        rw [hca] at hinv hcs
+        simp only [] at hinv ⊢
+        have hsf := ctr_add_sorted g.ctrs g.w it.seqNr hg.inv.cw hg.inv.wpos hg.sorted c1 hca
+        have htop : ∀ p ∈ setBuf g.bufs name b1, ∀ z ∈ p.2.live, c1.nr ≠ 0 ∧ z.seqNr ≤ mxOf c1 := by
+          intro p hp z hz
+          refine ⟨hcs.nrpos, ?_⟩
+          have hold : ∀ q ∈ g.bufs, ∀ z ∈ q.2.live, z.seqNr ≤ mxOf c1 := by
+            intro q hq z hz
+            have := hg.top q hq z hz
+            have := hcs.mx_mono this.1; omega
+          rcases mem_setBuf_cases _ _ _ _ hp with rfl | h
+          · obtain ⟨d, hlive, _⟩ := hspec.live
+            rw [hlive, List.mem_append] at hz
+            rcases hz with hz | hz
+            · have hz' := List.mem_of_mem_drop hz
+              cases hl : lookupBuf g.bufs name with
+              | none => rw [hl] at hz'; simp [Buf.new, Buf.live] at hz'
+              | some b => rw [hl] at hz'; exact hold _ (lookupBuf_some_mem _ _ _ hl) z hz'
+            · simp at hz; subst hz; exact hcs.mx_ge
+          · exact hold p h z hz
+        by_cases hst : g.started = true
+        · rw [if_pos hst] at hinv ⊢
+          cases hnf : c1.newFullCounter (if ((lookupBuf g.bufs name).isNone && g.started) = true then g.bufs.length + 1 else g.tracks) g.latest with
+          | none => rw [hnf] at hinv; exact hinv
+          | some nn => rw [hnf] at hinv; exact ⟨⟨hinv, hsf.1, htop⟩, fun hf => hsf.2 (Or.inl hf)⟩
+        · rw [if_neg hst] at hinv ⊢
+          exact ⟨⟨hinv, hsf.1, htop⟩, fun hf => hsf.2 (Or.inl hf)⟩
+
+theorem gen_add_fresh (g : Gen) (name : String) (it : Item) (hg : GFresh g) (hn : it.seqNr < U32) :
+    match g.add name it with
+    | .panic => False
+    | .err g' => GFresh g'
+    | .ok g' _ => GFresh g' := by
+  have h := gen_add_sorted g name it hg.base hn
+  cases ha : g.add name it with
+  | panic => rw [ha] at h; exact h
+  | err g' => rw [ha] at h; exact ⟨h.1, h.2 hg.fresh⟩
+  | ok g' n => rw [ha] at h; exact ⟨h.1, h.2 hg.fresh⟩
+
+/-! ## resize and start -/
+
+theorem sorted_drop_keep (l : List Item) (d k top : Nat) (hs : SortedI l) (htop : ∀ z ∈ l, z.seqNr ≤ top)
+    (hlen : top < k + (l.length - d)) : ∀ z ∈ l, z.seqNr = k → z ∈ l.drop d := by
+  intro z hz hzk
+  have hsplit : l = l.take d ++ l.drop d := (List.take_append_drop d l).symm
+  rw [hsplit, List.mem_append] at hz
+  rcases hz with hz | hz
+  · exfalso
+    unfold SortedI at hs
+    rw [hsplit, List.pairwise_append] at hs
+    have hlt := hs.2.2 z hz
+    have := sorted_length_le (l.drop d) (k + 1) (top + 1) hs.2.1 (fun x hx => by
+      have h1 : z.seqNr < x.seqNr := hlt x hx
+      have h2 : x.seqNr ≤ top := htop x (List.mem_of_mem_drop hx)
+      exact ⟨by omega, by omega⟩)
+    have h5 : l.length - d ≤ top + 1 - (k + 1) := by simpa using this
+    have h6 : z.seqNr ≤ top := htop z (List.mem_of_mem_take hz)
+    omega
+  · exact hz
+
+/-- `segDataBuffer.resize`: keeps the newest `n` items -/
+theorem buf_resize_spec (b : Buf) (w n : Nat) (hb : BW b w) :
+    ∃ b', b.resize n = some b' ∧ BW b' n ∧ ∃ d, b'.live = b.live.drop d ∧ b.live.length - d = min b.nr n := by
+  obtain ⟨hsize, hlen, hnr, hsorted⟩ := hb
+  have hll : b.live.length = b.nr := by simp only [Buf.live, List.length_take]; omega
+  unfold Buf.resize
+  by_cases h1 : n = b.size
+  · rw [if_pos h1]
+    exact ⟨b, rfl, ⟨by omega, by omega, by omega, hsorted⟩, 0, by simp, by omega⟩
+  · rw [if_neg h1]
+    by_cases h2 : n < b.nr
+    · rw [if_pos h2, if_neg (by omega)]
+      refine ⟨_, rfl, ?_, b.nr - n, ?_, by omega⟩
+      · have hlive : ((copyWithin b.items 0 (b.nr - n) b.items.length).take n).take n = b.live.drop (b.nr - n) := by
+          rw [List.take_take, Nat.min_self, copyWithin_zero _ _ (by omega),
+            List.take_append_of_le_length (by simp; omega)]
+          unfold Buf.live
+          rw [List.drop_take]
+          congr 1; omega
+        refine ⟨rfl, ?_, Nat.le_refl _, ?_⟩
+        · simp only [List.length_take]; rw [copyWithin_length _ _ _ _ (by omega)]; omega
+        · show SortedI (((copyWithin b.items 0 (b.nr - n) b.items.length).take n).take n)
+          rw [hlive]
+          exact List.Pairwise.sublist (List.drop_sublist _ _) hsorted
+      · show ((copyWithin b.items 0 (b.nr - n) b.items.length).take n).take n = _
+        rw [List.take_take, Nat.min_self, copyWithin_zero _ _ (by omega),
+          List.take_append_of_le_length (by simp; omega)]
+        unfold Buf.live
+        rw [List.drop_take]
+        congr 1; omega
+    · rw [if_neg h2]
+      have hlive : ((b.items.take n) ++ List.replicate (n - b.items.length) default).take b.nr = b.live := by
+        rw [List.take_append_of_le_length (by simp; omega), List.take_take]
+        unfold Buf.live
+        congr 1; omega
+      refine ⟨_, rfl, ⟨rfl, ?_, by show b.nr ≤ n; omega, ?_⟩, 0, by simp only [List.drop_zero]; exact hlive, by omega⟩
+      · simp only [List.length_append, List.length_take, List.length_replicate]; omega
+      · show SortedI (((b.items.take n) ++ List.replicate (n - b.items.length) default).take b.nr)
+        rw [hlive]; exact hsorted
+
+/-- `seqCounters.resize`: keeps the newest counters -/
+theorem ctr_resize_spec (c : Ctrs) (w w' : Nat) (hc : CW c w) :
+    ∃ c', c.resize w' = some c' ∧ CW c' w' ∧ ∃ d, d ≤ c.nr ∧ c'.nr = c.nr - d ∧ c.nr - d = min c.nr w' ∧
+      ∀ j, j < c'.nr → c'.arr[j]? = c.arr[d + j]? := by
+  obtain ⟨hweq, hlen, hnr⟩ := hc
+  unfold Ctrs.resize
+  by_cases h1 : w' > c.w
+  · rw [if_pos h1]
+    refine ⟨_, rfl, ⟨rfl, ?_, by show c.nr ≤ w'; omega⟩, 0, by omega, by simp, by omega, ?_⟩
+    · simp only [List.length_append, List.length_take, List.length_replicate]; omega
+    · intro j hj
+      have hj' : j < c.nr := hj
+      rw [List.getElem?_append_left (by simp; omega), List.getElem?_take, if_pos (by omega)]; simp
+  · rw [if_neg h1]
+    by_cases h2 : w' < c.w
+    · rw [if_pos h2, if_neg (by omega)]
+      by_cases h3 : c.nr > w'
+      · rw [if_pos h3, if_neg (by omega)]
+        refine ⟨_, rfl, ⟨rfl, ?_, Nat.le_refl _⟩, c.nr - w', by omega, by show w' = _; omega, by omega, ?_⟩
+        · simp only [List.length_take]; rw [copyWithin_length _ _ _ _ (by omega)]; omega
+        · intro j hj
+          have hj' : j < w' := hj
+          rw [List.getElem?_take, if_pos hj', copyWithin_getElem? _ _ _ _ _ (by omega), if_pos (by omega)]
+          simp
+      · rw [if_neg h3]
+        refine ⟨_, rfl, ⟨rfl, ?_, by show c.nr ≤ w'; omega⟩, 0, by omega, by simp, by omega, ?_⟩
+        · simp only [List.length_take]; omega
+        · intro j hj
+          have hj' : j < c.nr := hj
+          rw [List.getElem?_take, if_pos (by omega)]; simp
+    · rw [if_neg h2]
+      have : w' = w := by omega
+      subst this
+      exact ⟨c, rfl, ⟨hweq, hlen, hnr⟩, 0, by omega, by simp, by omega, fun j _ => by simp⟩
+
+theorem mapBufs_spec (f : Buf → Option Buf) (R : Buf → Buf → Prop) (bufs : List (String × Buf))
+    (h : ∀ p ∈ bufs, ∃ b', f p.2 = some b' ∧ R p.2 b') :
+    ∃ bufs', mapBufs f bufs = some bufs' ∧ bufs'.map (·.1) = bufs.map (·.1) ∧
+      (∀ p' ∈ bufs', ∃ p ∈ bufs, R p.2 p'.2) ∧
+      (∀ k, (∀ p ∈ bufs, ∀ b', R p.2 b' → holdsB p.2 k = true → holdsB b' k = true) → holders bufs k ≤ holders bufs' k) := by
+  induction bufs with
+  | nil => exact ⟨[], rfl, rfl, by simp, fun _ _ => Nat.le_refl _⟩
+  | cons q t ih =>
+    obtain ⟨name, b⟩ := q
+    obtain ⟨b', hb', hR⟩ := h (name, b) (by simp)
+    obtain ⟨t', ht', hnames, hmem, hhold⟩ := ih (fun p hp => h p (by simp [hp]))
+    refine ⟨(name, b') :: t', ?_, by simp [hnames], ?_, ?_⟩
+    · simp only [mapBufs]; simp only [] at hb'; rw [hb', ht']
+    · intro p' hp'
+      rcases List.mem_cons.mp hp' with rfl | hp'
+      · exact ⟨(name, b), by simp, hR⟩
+      · obtain ⟨p, hp, hr⟩ := hmem p' hp'
+        exact ⟨p, by simp [hp], hr⟩
+    · intro k hk
+      have ht := hhold k (fun p hp => hk p (by simp [hp]))
+      unfold holders at ht ⊢
+      simp only [List.filter_cons]
+      by_cases hb : holdsB b k = true
+      · rw [if_pos hb, if_pos (hk (name, b) (by simp) b' hR hb)]
+        simp only [List.length_cons]; omega
+      · rw [if_neg hb]
+        split
+        · simp only [List.length_cons]; omega
+        · exact ht
+
+/-- **`start` (not shifted) keeps the invariant**, whatever window it resizes to; growing keeps all counters fresh. -/
+theorem start_spec (g : Gen) (w : Nat) (hg : GFresh g) (hw0 : 0 < w) (hw : w < U32) :
+    ∃ g', g.start w false = some g' ∧ GSorted g' ∧ g'.started = true ∧ g'.w = w ∧ (g.w ≤ w → Fresh g'.ctrs w) := by
+  have hinv := hg.base.inv
+  obtain ⟨c', hc', hcw', d, hd, hnr', hmin, hidx⟩ := ctr_resize_spec g.ctrs g.w w hinv.cw
+  obtain ⟨bufs', hb', hnames, hmem, hhold⟩ := mapBufs_spec (·.resize w)
+    (fun b b' => BW b' w ∧ ∃ d, b'.live = b.live.drop d ∧ b.live.length - d = min b.nr w) g.bufs
+    (fun p hp => buf_resize_spec p.2 g.w w (hinv.bw p hp))
+  have hmem_live : ∀ x ∈ c'.live, x ∈ g.ctrs.live := by
+    intro x hx
+    rw [live_mem] at hx ⊢
+    obtain ⟨j, hj, hx⟩ := hx
+    exact ⟨d + j, by omega, by rw [← hidx j hj]; exact hx⟩
+  have hmx : c'.nr ≠ 0 → mxOf c' = mxOf g.ctrs := by
+    intro h0
+    rw [mxOf_eq, mxOf_eq, hidx (c'.nr - 1) (by omega)]
+    congr 3; omega
+  refine ⟨{ bufs := bufs', ctrs := c', latest := g.latest, w := w, tracks := bufs'.length, started := true, shifted := false }, ?_, ⟨?_, ?_, ?_⟩, rfl, rfl, ?_⟩
+  · unfold Gen.start Gen.resize
+    simp only [hb', hc']
+    rfl
+  · refine ⟨hw0, hw, hcw', by show (bufs'.map (·.1)).Nodup; rw [hnames]; exact hinv.nodup, ?_, ?_, fun _ => rfl⟩
+    · intro p' hp'
+      obtain ⟨p, _, hr⟩ := hmem p' hp'
+      exact hr.1
+    · intro x hx hwin
+      have hxl := hmem_live x hx
+      have h0 := live_nonempty_nr _ _ hx
+      have hwin' : mxOf c' < x.seqNr + w := hwin
+      rw [hmx h0] at hwin'
+      have h1 := hinv.win x hxl (hg.fresh x hxl)
+      refine Nat.le_trans h1 (hhold x.seqNr ?_)
+      intro p hp b' hR hh
+      obtain ⟨_, db, hlive, hlen⟩ := hR
+      rw [holdsB_iff] at hh ⊢
+      obtain ⟨z, hz, hzk⟩ := hh
+      refine ⟨z, ?_, hzk⟩
+      rw [hlive]
+      have hbw := hinv.bw p hp
+      have hll : p.2.live.length = p.2.nr := by
+        simp only [Buf.live, List.length_take]; have := hbw.nr; have := hbw.len; omega
+      by_cases hsmall : p.2.nr ≤ w
+      · have hpos : 0 < p.2.live.length := List.length_pos_of_mem hz
+        have hm : min p.2.nr w = p.2.nr := Nat.min_eq_left hsmall
+        have : db = 0 := by rw [hm] at hlen; omega
+        rw [this]; simpa using hz
+      · have hlw : p.2.live.length - db = w := by rw [hlen]; exact Nat.min_eq_right (by omega)
+        exact sorted_drop_keep p.2.live db x.seqNr (mxOf g.ctrs) hbw.sorted
+          (fun z hz => (hg.base.top p hp z hz).2) (by rw [hlw]; exact hwin') z hz hzk
+  · intro j1 j2 x1 x2 h12 h2 e1 e2
+    have h2' : j2 < c'.nr := h2
+    have e1' : c'.arr[j1]? = some x1 := e1
+    have e2' : c'.arr[j2]? = some x2 := e2
+    rw [hidx j1 (by omega)] at e1'
+    rw [hidx j2 h2'] at e2'
+    exact hg.base.sorted (d + j1) (d + j2) x1 x2 (by omega) (by omega) e1' e2'
+  · intro p' hp' z hz
+    obtain ⟨p, hp, _, db, hlive, _⟩ := hmem p' hp'
+    rw [hlive] at hz
+    have := hg.base.top p hp z (List.mem_of_mem_drop hz)
+    have h0 : c'.nr ≠ 0 := by omega
+    exact ⟨h0, by show z.seqNr ≤ mxOf c'; rw [hmx h0]; exact this.2⟩
+  · intro hle x hx
+    have hxl := hmem_live x hx
+    have h0 := live_nonempty_nr _ _ hx
+    show mxOf c' < x.seqNr + w
+    rw [hmx h0]
+    have := hg.fresh x hxl
+    omega
 
 end Recv
